@@ -7,7 +7,7 @@ from .common import *
 
 META = {
     "level": "other",
-    "explanation": "Wiring check of the KSY generator (export_ksy itself cannot run here: ruamel.yaml is absent) -- each rule is necessary for the schema to describe the layout the construct parses: (R1) every key of every dict the _emitseq/_emitfulltype/_emitprimitivetype definitions (class level and macro closures) return is, after hyphenation, in the Kaitai attribute vocabulary or the private _construct_render; (R2) the layout parameter that _parse consumes in a role flows to the key carrying that role: Bytes/Padded/FixedSized/Padding/PaddedString length -> size, Array count -> repeat-expr with repeat: expr, GreedyRange repeat: eos, RepeatUntil repeat: until, GreedyBytes/GreedyString size-eos, NullTerminated term/include/consume/require -> terminator/include/consume/eos-error (single-byte terminators only, longer ones refuse), NullStripped pad -> pad-right, Const contents = the built constant, Enum mapping -> enums, Pointer offset -> pos, strings encoding; integer type strings {s|u}{length}{le|be} with signedness and byte-order polarity matching what _parse does -- for FormatField: signed iff lower-case code, little-endian iff '<' or ('=' and host is little-endian); for BytesInteger: self.signed / self.swapped; BitsInteger b{length}; (R3) Struct/Sequence/FocusedSeq emit members by iterating self.subcons forwards, Renamed sets id = self.name, and intra-list references (size: lengthfield, repeat-expr: countfield) name an id emitted earlier in the same list; (R4) the three _compile* fallbacks catch exactly NotImplementedError, hand `bitwise` on unchanged, recurse with recursion+1 and stop at 3. R2 also: ksymapping and decmapping are taken after the last entry went into the mapping; (R5) KsyGen.allocateId returns a counter it has just advanced, and every entry stored in the shared tables ksy.types/enums/instances is keyed by a name built from a fresh allocateId() and that same name is returned.",
+    "explanation": "Wiring check of the KSY generator (export_ksy itself cannot run here: ruamel.yaml is absent) -- each rule is necessary for the schema to describe the layout the construct parses: (R1) every key of every dict the _emitseq/_emitfulltype/_emitprimitivetype definitions (class level and macro closures) return is, after hyphenation, in the Kaitai attribute vocabulary or the private _construct_render; (R2) the layout parameter that _parse consumes in a role flows to the key carrying that role: Bytes/Padded/FixedSized/Padding/PaddedString length -> size, Array count -> repeat-expr with repeat: expr, GreedyRange repeat: eos, RepeatUntil repeat: until, GreedyBytes/GreedyString size-eos, NullTerminated term/include/consume/require -> terminator/include/consume/eos-error (single-byte terminators only, longer ones refuse), NullStripped pad -> pad-right, Const contents = the built constant, Enum mapping -> enums, Pointer offset -> pos, strings encoding; integer type strings {s|u}{length}{le|be} with signedness and byte-order polarity matching what _parse does -- for FormatField: signed iff lower-case code, little-endian iff '<' or ('=' and host is little-endian); for BytesInteger: self.signed / self.swapped; BitsInteger b{length}; (R3) Struct/Sequence/FocusedSeq emit members by iterating self.subcons forwards, Renamed sets id = self.name, and intra-list references (size: lengthfield, repeat-expr: countfield) name an id emitted earlier in the same list; (R4) the three _compile* fallbacks catch exactly NotImplementedError, hand `bitwise` on unchanged, recurse with recursion+1 and stop at 3. R2 also: ksymapping and decmapping are taken after the last entry went into the mapping; (R5) KsyGen.allocateId returns a counter it has just advanced, and every entry stored in the shared tables ksy.types/enums/instances is keyed by a name built from a fresh allocateId() and that same name is returned. (R6) expressions are exported as text: the operator spelling table and the parse-faithful rendering (shared with C11.R3/R4).",
     "undecided": "Interpreting the schema on encodings (extent and value of every field) needs a Kaitai interpreter; not decided.",
     "trusted_base": ["python ast (3.12)", "sa.summ summariser", "sa/tables.py Kaitai attribute vocabulary (KSY reference)", "struct byte-order characters (library reference)"],
     "assumptions": [],
@@ -218,6 +218,18 @@ def run(ctx):
             rets = [p for p in ps if p.returns and any(e.kind == "STORE" and e.node is st.node for e in p.events)]
             ctx.ob("C19.R5", f, bool(rets) and all(p.retval == k for p in rets), "the name returned is the name the entry was stored under", key="ksy.%s returned name" % b[2])
     ctx.floor("C19.R5", 7)
+    # ---------------------------------------------------------------- R6 conditions, sizes and counts given as expressions are exported as their text: operator spellings and rendering (shared with C11.R3/R4)
+    from ..core import Ctx as _Ctx
+    from . import C11
+    sub = _Ctx("C11", ctx.tier, ctx.root, model=ctx.model)
+    sub._summ = summariser(ctx)
+    C11.run(sub)
+    for e in sub.errors:
+        ctx.error("shared C11 rules: " + e)
+    for o in sub.obligations:
+        if o.rule in ("C11.R3", "C11.R4"):
+            ctx.ob("C19.R6", o.where, o.ok, o.what, key=o.key, loc=o.loc, detail=o.detail)
+    ctx.floor("C19.R6", 26)
 
     # ---------------------------------------------------------------- R3
     subs = N.selfattr("subcons")
